@@ -9,6 +9,7 @@ from typing import Any, Dict, List, Optional, Set, Tuple
 from engine.cfg import CFG
 from engine.consteval import ConstEval, NotConstant
 from engine.index import AnalysisError, FuncInfo, calls_in, const_str, unparse, walk_no_nested
+from engine.absint import ModuleEnv
 from engine.pyinterp import Env, Function, Interp, Stub, Unsupported
 from rules.common import DAILY_MODEL, method
 
@@ -196,7 +197,7 @@ def run(chk):
 
     def run_combinations(table, user, gauss, use_gauss=True, pre_generated=None):
         it = Interp()
-        env = Env()
+        env = ModuleEnv(chk.repo, comb.module, it, {})
         cd = combo_dicts[0]
         settings = NS(split_selection=NS(allow_separate_summer=user[0], allow_separate_shoulder=user[1], allow_separate_winter=user[2],
                                          allow_separate_weekday_weekend=user[3], reduce_splits_by_gaussian=use_gauss, reduce_splits_num_std=[1.4, 0.89]))
@@ -298,7 +299,7 @@ def run(chk):
             err = None
             for comp in c.split("__"):
                 it = Interp()
-                env = Env()
+                env = ModuleEnv(chk.repo, ms.module, it, {})
                 selfm = NS(combo_dictionary=cd, df_meter=Meter(plenty))
                 try:
                     res = Function(ms.node, env, it)(selfm, comp, Meter(plenty))
@@ -315,8 +316,8 @@ def run(chk):
                        f"candidate `{c}`: " + (err or f"(season, weekday) cells {bad[:3]} are selected {[sel_count[k] for k in bad[:3]]} times by its sub-models (must be exactly once)"),
                        sample={"candidate": c, "weekend_days": cd["we"]})
     # key grammar written == parsed ; prediction iterates stored keys and labels rows with that key
-    txt = unparse(comb.node)
-    r2.require("f'{prefix}-{s}'" in txt and "'__'.join(combo)" in txt, f"{comb.key}|key-grammar-writer", comb.where(), "candidate keys must be written as `<prefix>-<seasons>` joined by `__`")
+    unparsed = [c for c in generated if _parse_combo(c) is None]
+    r2.require(not unparsed, f"{comb.key}|key-grammar-writer", comb.where(), f"candidate keys must be written as `<prefix>-<seasons>` joined by `__`; the interpreted generator wrote {unparsed[:3]}")
     pr = method(chk, dm, "_predict")
     # interpreted (rules/daily_predict.py): every stored key predicts exactly its own segment of the cleaned frame, with its own
     # sub-model, and labels those rows with that key
@@ -354,8 +355,7 @@ def run(chk):
             def _combination_selection_criteria(self_, c):
                 return crit[c]
         it = Interp()
-        env = Env()
-        env.set("np", NS(inf=math.inf, nan=math.nan))
+        env = ModuleEnv(chk.repo, bc.module, it, {"np": NS(inf=math.inf, nan=math.nan)})
         try:
             got = Function(bc.node, env, it)(SelfB(), False)
         except Unsupported as e:
@@ -371,17 +371,83 @@ def run(chk):
         if v is not None and const_str(v):
             members[n] = const_str(v)
     sc = chk.repo.func("opendsm.eemeter.models.daily.utilities.selection_criteria", "selection_criteria")
-    branches = {}
-    for n in ast.walk(sc.node):
-        if isinstance(n, ast.If) and isinstance(n.test, ast.Compare) and "model_selection_criteria" in unparse(n.test.left) and isinstance(n.test.ops[0], ast.Eq) and const_str(n.test.comparators[0]):
-            assigns = [s for s in n.body if isinstance(s, ast.Assign) and unparse(s.targets[0]) == "criteria"]
-            raises = [s for s in n.body if isinstance(s, ast.Raise)]
-            branches[const_str(n.test.comparators[0])] = (bool(assigns), bool(raises))
+    # selection_criteria is interpreted for every member's value on symbolic scalars (comparisons decided both ways): every path must
+    # return a value, divided by N exactly when the criterion is not an RMSE form
+    from engine.absint import AbsBool, Oracle, Term, explore
+    from engine.pyinterp import InterpRaised
+    oracle = Oracle()
+
+    class SNum(Term):
+        __hash__ = Term.__hash__
+
+        def _cmp(self, op, o):
+            return AbsBool(f"{op}({self.key()}, {o.key() if isinstance(o, Term) else o!r})", oracle)
+
+        def __le__(self, o): return self._cmp("le", o)
+        def __lt__(self, o): return self._cmp("lt", o)
+        def __ge__(self, o): return self._cmp("ge", o)
+        def __gt__(self, o): return self._cmp("gt", o)
+        def __eq__(self, o): return isinstance(o, Term) and o.key() == self.key()
+        def __neg__(self): return SNum("neg", self)
+        def __pow__(self, k): return SNum("pow", self, k)
+        def __rpow__(self, k): return SNum("pow", k, self)
+        def __mul__(self, o): return SNum("mul", self, o)
+        def __rmul__(self, o): return SNum("mul", o, self)
+        def __add__(self, o): return SNum("add", self, o)
+        def __radd__(self, o): return SNum("add", o, self)
+        def __sub__(self, o): return SNum("sub", self, o)
+        def __rsub__(self, o): return SNum("sub", o, self)
+        def __truediv__(self, o): return SNum("div", self, o)
+        def __rtruediv__(self, o): return SNum("div", o, self)
+
+    class NPn(Stub):
+        inf = math.inf
+        pi = math.pi
+        nan = math.nan
+
+        @staticmethod
+        def sqrt(x): return SNum("sqrt", x) if isinstance(x, Term) else math.sqrt(x)
+
+        @staticmethod
+        def log(x): return SNum("log", x) if isinstance(x, Term) else math.log(x)
+
+        @staticmethod
+        def exp(x): return SNum("exp", x) if isinstance(x, Term) else math.exp(x)
+
+    def run_sc(value):
+        it = Interp()
+        env = ModuleEnv(chk.repo, sc.module, it, {"np": NPn(), "numpy": NPn()})
+
+        def run():
+            try:
+                return ("value", Function(sc.node, env, it)(SNum("loss"), SNum("TSS"), SNum("N"), SNum("K"), value, SNum("c0"), SNum("d0")))
+            except InterpRaised as e:
+                return ("raises", e.exc_name)
+            except Unsupported as e:
+                if "unbound name" in str(e):
+                    return ("raises", "UnboundLocalError")
+                raise
+        return explore(run, oracle)
+
+    def by_n(res) -> bool:
+        return isinstance(res, Term) and res.op == "div" and isinstance(res.args[1], Term) and res.args[1].key() == "N"
+
     for nm, val in sorted(members.items()):
-        b = branches.get(val)
-        r6.require(b is not None and b[0] and not b[1], f"{sc.key}|member:{val}", sc.where(), f"ModelSelectionCriteria.{nm} = '{val}' has no value-producing branch in selection_criteria (selecting it would fail or return nothing)",
-                   sample={"member": val})
-    norm = [n for n in ast.walk(sc.node) if isinstance(n, ast.If) and "not in ['rmse', 'rmse_adj']" in unparse(n.test) and any(isinstance(s, ast.AugAssign) and isinstance(s.op, ast.Div) and unparse(s.value) == "N" for s in n.body)]
-    r6.require(len(norm) == 1, f"{sc.key}|normalised-by-N", sc.where(), "information criteria must be normalised by N (RMSE forms excepted)")
+        for spelled in (val,):
+            try:
+                outs = run_sc(spelled)
+            except Unsupported as e:
+                raise AnalysisError(f"selection_criteria: outside the interpreted subset for `{spelled}`: {e}")
+            fails = [(d, r) for d, r in outs if r[0] != "value" or not (isinstance(r[1], Term) or r[1] == math.inf)]
+            r6.require(not fails, f"{sc.key}|member:{val}" + ("" if spelled == val else "|upper-case"), sc.where(),
+                       f"ModelSelectionCriteria.{nm} = '{spelled}' has no value-producing branch in selection_criteria (selecting it would fail or return nothing): "
+                       + (f"{fails[0][1]} when {[t for t, v in fails[0][0] if v]}" if fails else ""), sample={"member": spelled, "paths": len(outs)})
+            if fails:
+                continue
+            rmse = val in ("rmse", "rmse_adj")
+            wrong = [(d, r[1]) for d, r in outs if isinstance(r[1], Term) and by_n(r[1]) == rmse]
+            r6.require(not wrong, f"{sc.key}|normalised-by-N:{val}" + ("" if spelled == val else "|upper-case"), sc.where(),
+                       f"criterion `{spelled}` " + ("is an RMSE form and must not be divided by N again" if rmse else "must be normalised by N (information criteria are per data point)")
+                       + (f"; returned {wrong[0][1].key()[:120]}" if wrong else ""))
     split_default = chk.repo.cls("opendsm.eemeter.models.daily.utilities.settings", "Split_Selection_Definition").attrs.get("criteria")
     r6.require(split_default is not None and "ModelSelectionCriteria.BIC" in unparse(split_default[1]), "Split_Selection_Definition.criteria|default-bic", "settings.py", "default split-selection criterion must be BIC")
